@@ -514,3 +514,27 @@ MUTANTS += [
    (MF, "            size = int(data[2])\n            if size < 0:",
         "            size = int(data[2]) if data[2] != '007' else data[2]\n            if int(size) < 0:")]),
 ]
+
+# --- maintenance after the fix: commits in /repo
+MUTANTS = [m for m in MUTANTS if m['id'] not in (
+    # equivalent (documented in DESIGN.md section 8)
+    'c15-xdev-ignored', 'c16-no-loop-check-update',
+    'c16-no-dir-dev-check-update',
+    # since ef6986a stack[0] is the top-level Manifest: entries placed there
+    # are still in a covering Manifest, i.e. a valid result
+    'c03-new-entries-to-stack0',
+    'c06-any-oserror-absent', 'c19-aux-nested-only-first-level')]
+MUTANTS += [
+ dict(id='c06-any-oserror-absent', props=['C06'], edits=[(VF,
+   "    except (FileNotFoundError, ValueError):",
+   "    except (FileNotFoundError, PermissionError, ValueError):")]),
+ dict(id='c19-aux-nested-only-first-level', props=['C19'], edits=[(PF,
+   "        if spl[2:3] == ['files'] and len(spl) > 3:",
+   "        if spl[2:3] == ['files'] and len(spl) == 4:")]),
+ dict(id='c03-new-entries-one-level-up', props=['C03'], edits=[(RL,
+   "                mpath, mdirpath, m = manifest_stack[-1]\n                for fe in new_entries:",
+   "                mpath, mdirpath, m = manifest_stack[max(0, len(manifest_stack) - 2)]\n                for fe in new_entries:")]),
+]
+
+# placing new entries in a Manifest further up is still a covering Manifest
+MUTANTS = [m for m in MUTANTS if m['id'] != 'c03-new-entries-one-level-up']
